@@ -534,5 +534,9 @@ class MailboxSet(MailboxSetInterface[MailboxData]):
     async def rename_mailbox(self, before: str, after: str) -> None:
         if before == 'INBOX':
             raise NotSupportedError()  # TODO
-        else:
-            self._layout.rename_folder(before, after, self.delimiter)
+        tree = await self.list_mailboxes()
+        if tree.get(before) is None:
+            raise KeyError(before)
+        elif tree.get(after) is not None:
+            raise ValueError(after)
+        self._layout.rename_folder(before, after, self.delimiter)
